@@ -145,7 +145,27 @@ def _hex_char(I, a, k):
     return Sym(STR, t, parts=[Digits(v.t, 1, t, single=True, alphabet='0123456789abcdef')])
 
 
+def _letter_char(I, a, k):
+    """the one-character lower-case ASCII letter number v (0 = a ... 25 = z)"""
+    v = I.resolve(a[0])
+    alpha = 'abcdefghijklmnopqrstuvwxyz'
+    if isinstance(v, int):
+        return alpha[v]
+    I.p.assume(z3.And(v.t >= 0, v.t <= 25))
+    t = z3.SubString(z3.StringVal(alpha), v.t, 1)
+    return Sym(STR, t, parts=[Digits(v.t, 1, t, single=True, alphabet=alpha)])
+
+
+def _make_unit_value(I, a, k):
+    from .libb import NT
+    t = NT([a[0], a[1]])
+    t._fields, t._name = ('number', 'unit'), 'UnitValue'
+    return t
+
+
 NATIVE = {
+    'make_unit_value': _make_unit_value,
+    'letter_char': _letter_char,
     'hex_char': _hex_char,
     'digit_char': _digit_char,
     'build_string_matcher': _build_string_matcher,
